@@ -79,6 +79,13 @@ func c15Judge(rules []*grl.Rule, cause error, tr *hx.Trace) (sig, what string, n
 			}
 		}
 	}
+	if flip > 0 {
+		// the flip came during the ExecuteRuleEntry callback or at the guard before the first
+		// action: the announced rule was not executing yet, none of its actions may start
+		if p := tr.Events[flip-1]; p[0] == 'X' && p[1] >= '0' && p[1] <= '9' {
+			executing = ""
+		}
+	}
 	for i := flip + 1; i < len(tr.Events); i++ {
 		e := tr.Events[i]
 		if e[0] == 'X' && e[1] >= '0' && e[1] <= '9' {
